@@ -13,7 +13,13 @@ _prog_cache = {}
 
 def load_program(repo, work, features):
     key = tuple(sorted(features))
-    d, src, secs, log = dump.dump(repo, work, list(features))
+    corpus_file = None
+    if "verif-corpus" in features:
+        from . import corpus
+        os.makedirs(os.path.join(work, "mir"), exist_ok=True)
+        corpus_file = os.path.join(work, "mir", "corpus.rs")
+        open(corpus_file, "w").write(corpus.source())
+    d, src, secs, log = dump.dump(repo, work, list(features), corpus_file)
     if d is None:
         return None, "MIR dump failed (the overlay does not compile on nightly): " + " | ".join(l for l in log.split("\n") if l.startswith("error"))[:600], secs
     ck = (key, d)
@@ -138,6 +144,7 @@ def run_group(pid, grp, tier, out, repo, work):
         out.inconclusive.append(err)
         return
     tot_paths = tot_smt = tot_steps = 0
+    xv_total = [0]
     smt_time = 0.0
     t0 = time.time()
     for sc in grp["scenarios"]:
@@ -187,9 +194,65 @@ def run_group(pid, grp, tier, out, repo, work):
             out.inconclusive.append("%s: no feasible path (vacuous)" % name)
         else:
             ob["status"] = "discharged"
+            if sc.get("xval", True) and os.environ.get("VERIF_XVAL", "1") != "0":
+                okn, mism, skipped, why = cross_validate(prog, fn, pid, tier, getattr(st, "sample_paths", [])[:8], work, feats, repo)
+                ob["native_traces_compared"] = okn
+                ob["native_trace_mismatches"] = len(mism)
+                if why:
+                    ob["native_note"] = why
+                xv_total[0] += okn
+                if mism:
+                    ob["status"] = "inconclusive"
+                    out.inconclusive.append("%s: interpreter and native execution disagree on a sampled path (at event %d: interpreter %r, native %r) - encoding/model defect, not a verdict" % (
+                        name, mism[0]["at"], mism[0]["interpreter"], mism[0]["native"]))
+                    rdir = os.path.join(work, "replays", pid)
+                    os.makedirs(rdir, exist_ok=True)
+                    json.dump(mism[0], open(os.path.join(rdir, "xval_mismatch_%s.json" % sc["fn"]), "w"), indent=1)
         out.obligations.append(ob)
-    out.notes.append({"engine": "mir", "features": feats, "mir_bodies": prog.n_bodies, "dump_s": round(dsecs, 1), "paths": tot_paths,
+    out.notes.append({"engine": "mir", "features": feats, "native_traces_compared": xv_total[0], "mir_bodies": prog.n_bodies, "dump_s": round(dsecs, 1), "paths": tot_paths,
                       "smt_queries": tot_smt, "smt_time_s": round(smt_time, 2), "mir_steps": tot_steps, "wall_s": round(time.time() - t0, 1)})
+
+
+def cross_validate(prog, fn, P, tier, prefixes, work, feats, repo):
+    """run sampled paths natively (compiled rsactor + Rust tokio model) and compare the traces"""
+    from . import xval
+    from .explore import Exec
+    specs, expected = [], {}
+    skipped = 0
+    for n, pre in enumerate(prefixes):
+        ex = Exec([(d[0], d[1]) for d in pre])
+        try:
+            fn(prog, ex, P, tier)
+        except Exception:
+            skipped += 1
+            continue
+        sim_ = getattr(ex, "sim", None)
+        if sim_ is None or not xval.supported(ex, sim_):
+            skipped += 1
+            continue
+        try:
+            sp = xval.spec_of(ex, sim_)
+            expected[str(n)] = xval.canon_events(ex, sim_)
+            specs.append((str(n), sp))
+        except Exception:
+            skipped += 1
+    if not specs:
+        return 0, [], skipped, "no sampled path uses only natively replayable operations"
+    binary, log = xval.build_native(work, feats, repo)
+    if binary is None:
+        return 0, [], skipped, "native build failed: " + " | ".join(l for l in log.split("\n") if l.startswith("error"))[:300]
+    got, err = xval.run_native(binary, specs, work)
+    if got is None:
+        return 0, [], skipped, "native run produced no output: " + err
+    mism = []
+    ok = 0
+    for i, spec in specs:
+        d = xval.first_diff(expected[i], got.get(i, []))
+        if d is None:
+            ok += 1
+        else:
+            mism.append({"sample": i, "at": d[0], "interpreter": d[1], "native": d[2], "spec": spec})
+    return ok, mism, skipped, ""
 
 
 def replay(prog, fn, v, tier):
